@@ -2,6 +2,7 @@ import PokerVerif.Drv.SMDrv
 import PokerVerif.Drv.TBDrv
 import PokerVerif.Drv.OGMDrv
 import PokerVerif.Drv.HDDrv
+import PokerVerif.Drv.ACDrv
 /-! Correspondence driver: reads a trace on stdin, replays it through the models, prints verdict lines. -/
 open Drv
 
@@ -11,6 +12,7 @@ structure DrvState where
   tb : TBDrv := {}
   ogm : OGMDrv := {}
   hd : HDDrv := {}
+  ac : ACDrv := {}
   bad : Nat := 0
 
 partial def loop (h : IO.FS.Stream) (out : IO.FS.Stream) (s : DrvState) : IO DrvState := do
@@ -37,6 +39,10 @@ partial def loop (h : IO.FS.Stream) (out : IO.FS.Stream) (s : DrvState) : IO Drv
     let (o', outs) := hdLine s.hd n rest
     for o in outs do out.putStrLn o
     loop h out { s with lineNo := n, hd := o' }
+  | "ac" :: rest =>
+    let (o', outs) := acLine s.ac n rest
+    for o in outs do out.putStrLn o
+    loop h out { s with lineNo := n, ac := o' }
   | _ =>
     out.putStrLn s!"BADLINE {n} unknown-layer"
     loop h out { s with lineNo := n, bad := s.bad + 1 }
@@ -49,4 +55,5 @@ def main : IO Unit := do
   for l in s.tb.summary do stdout.putStrLn l
   for l in s.ogm.summary do stdout.putStrLn l
   for l in s.hd.summary do stdout.putStrLn l
+  for l in s.ac.summary do stdout.putStrLn l
   stdout.putStrLn s!"DONE lines={s.lineNo}"
